@@ -13,7 +13,7 @@ NA = {}     # property id -> reason, for properties not claimed
 
 ENGINES = {
     "simsync": ("vlib/sim.py", "deterministic one-loop-iteration driver of the real engine over in-memory mock providers with boundary taps (observation + fault / crash / event-mangling injection) and oracles over observed trees, calls and state"),
-    "component": ("vlib/models", "model-based lock-step harnesses: the real component and a small executable reference model are driven by the same random / exhaustive-small operation sequences; any disagreement is the violation"),
+    "component": ("props/c09.py props/c13.py props/c16.py props/c18.py props/c19.py", "model-based lock-step harnesses: the real component and a small executable reference model are driven by the same random / exhaustive-small operation sequences; any disagreement is the violation"),
     "threaded": ("vlib/threaded.py", "real threads (cs.start()) under tiny switch intervals and injected yields, with lock-ownership assertions inside the state's mutation hooks"),
 }
 
